@@ -65,32 +65,105 @@ package gsm7encoding
 //@     invariant alloc <= entry(alloc) + 8 * count
 //@     decreases remain
 
-// ---------------------------------------------------------------- alphabet level (C08 in part, C03)
+// Unpacking what Pack produced returns the same septets wherever in the message they occur: a statement about the two
+// bit-level specifications alone (P is any octet string that satisfies Pack's postcondition for S).
+//@ lemma unpack_inverts_pack(S []byte, P []byte, j int)
+//@   props C08,C05
+//@   theory none
+//@   requires 0 <= j && j < len(S) && len(P) == (7 * len(S) + 7) / 8
+//@   requires forall i int :: 0 <= i && i < len(S) ==> S[i] < 128
+//@   requires forall m int :: 0 <= m && m < len(P) && !(m == len(P) - 1 && len(S) % 8 == 7) ==> P[m] == specOctet(S, m)
+//@   requires len(S) % 8 == 7 ==> P[len(P) - 1] == ((specOctet(S, len(P) - 1) >> 1) == 0 ? specOctet(S, len(P) - 1) | 26 : specOctet(S, len(P) - 1))
+//@   ensures [C08,C05 septet] specSeptet(P, j) == S[j]
+
+// ---------------------------------------------------------------- alphabet level (C08, C05, C03)
 // Encode: the septets produced are alphabet codes (below 0x80, in the default table) and every ESC is followed by a code
 // of the extension table; a rune in neither table is refused. Decode / validators: total, terminating, bounded allocation.
 
 //@ pred gsmwf(s Bytes) = forall i int :: 0 <= i && i < len(s) ==> (at(s, i) != 27 ==> mapdom(reverseLookup, at(s, i))) && (at(s, i) == 27 ==> i + 1 < len(s) && mapdom(reverseEscape, at(s, i + 1)))
 
+// gsmunit(r): the septet(s) of one character; gsmseq(S, i): the septets of the characters of S from byte index i on;
+// gsmokfrom(S, i): every character from i on is in one of the two tables. (runeat / runelen: what `for range` yields.)
+//@ pred gsmrune(r int) = mapdom(forwardLookup, r) || mapdom(forwardEscape, r)
+//@ pure func gsmunit(r int) Bytes = mapdom(forwardLookup, r) ? u8(int(forwardLookup[r])) : cat(u8(27), u8(int(forwardEscape[r])))
+//@ rec func gsmseq(S Bytes, i int) Bytes = (i >= len(S) || runelen(S, i) < 1) ? eps : cat(gsmunit(runeat(S, i)), gsmseq(S, i + runelen(S, i)))
+//@ rec func gsmokfrom(S Bytes, i int) bool = (i >= len(S) || runelen(S, i) < 1) ? true : (gsmrune(runeat(S, i)) && gsmokfrom(S, i + runelen(S, i)))
+
 //@ func Encode
-//@   props C08,C03
+//@   props C08,C05,C03
 //@   ensures [C08 empty] len(src) == 0 ==> err == nil && len(dst) == 0
 //@   ensures [C08 wellformed] err == nil ==> gsmwf(content(dst)) && len(dst) <= 2 * len(src)
 //@   ensures [C08 refuse] err != nil ==> len(dst) == 0
+//@   ensures [C05,C08 repertoire] (err == nil) <==> gsmokfrom(src, 0)
+//@   ensures [C05,C08 image] err == nil ==> content(dst) == gsmseq(src, 0)
 //@   ensures [C03 alloc] alloc <= 16 * len(src) + 64
 //@   loop 1
 //@     invariant 0 <= rangepos && rangepos <= len(src)
 //@     invariant gsmwf(content(septets)) && len(septets) <= 2 * rangepos
+//@     invariant gsmokfrom(src, 0) <==> gsmokfrom(src, rangepos)
+//@     invariant cat(content(septets), gsmseq(src, rangepos)) == gsmseq(src, 0)
 //@     invariant alloc <= entry(alloc) + 10 * rangepos
 //@     decreases len(src) - rangepos
 
+// gsmtext(P): the UTF-8 text of the septets P (utf8enc(r): the octets WriteRune emits for r).
+//@ rec func gsmtext(P Bytes) Bytes = len(P) == 0 ? eps : (at(P, 0) == 27 ? cat(utf8enc(int(reverseEscape[at(P, 1)])), gsmtext(drop(P, 2))) : cat(utf8enc(int(reverseLookup[at(P, 0)])), gsmtext(drop(P, 1))))
+
 //@ func Decode
-//@   props C08,C03
+//@   props C08,C05,C03
 //@   ensures [C03 alloc] alloc <= 16 * len(septets) + 64
 //@   ensures [C08 refuse] err != nil ==> len(dst) == 0
+//@   ensures [C05,C08 accepts] (err == nil) <==> gsmwf(content(septets))
+//@   ensures [C05,C08 text] err == nil ==> content(dst) == gsmtext(content(septets))
 //@   loop 1
 //@     invariant 0 <= nSeptet && nSeptet <= len(septets)
 //@     invariant alloc <= entry(alloc) + 12 * nSeptet
+//@     invariant forall i int :: 0 <= i && i < nSeptet ==> (at(content(septets), i) != 27 ==> mapdom(reverseLookup, at(content(septets), i))) && (at(content(septets), i) == 27 ==> i + 1 < len(septets) && mapdom(reverseEscape, at(content(septets), i + 1)))
+//@     invariant cat(builder.unread, gsmtext(drop(content(septets), nSeptet))) == gsmtext(content(septets))
 //@     decreases len(septets) - nSeptet
+
+// Decoding what Encode produced returns the text, for valid UTF-8 (utf8from: from byte index i on, every rune that
+// `for range` yields re-encodes to exactly the octets it was read from - the defining property of valid UTF-8, A-UTF8).
+// Proved by induction on the remaining length; the table facts it needs (every forward entry has its inverse entry,
+// no default-table code is ESC) are ground facts about the literal tables.
+//@ rec func utf8from(S Bytes, i int) bool = i >= len(S) ? true : (runelen(S, i) >= 1 && i + runelen(S, i) <= len(S) && utf8enc(runeat(S, i)) == ext(S, i, i + runelen(S, i)) && utf8from(S, i + runelen(S, i)))
+
+//@ lemma gsmtext_default(x int, R Bytes)
+//@   props C05,C08
+//@   requires 0 <= x && x < 256 && x != 27
+//@   ensures [C05,C08 cons] gsmtext(cat(u8(x), R)) == cat(utf8enc(int(reverseLookup[x])), gsmtext(R))
+
+//@ lemma gsmtext_escape(y int, R Bytes)
+//@   props C05,C08
+//@   requires 0 <= y && y < 256
+//@   ensures [C05,C08 cons] gsmtext(cat(u8(27), u8(y), R)) == cat(utf8enc(int(reverseEscape[y])), gsmtext(R))
+
+// every forward entry has its inverse entry, and no default-table code is ESC (facts about the literal tables)
+//@ lemma gsm_tables_inverse(r int)
+//@   props C05,C08
+//@   ensures [C05,C08 default] mapdom(forwardLookup, r) ==> int(forwardLookup[r]) != 27 && 0 <= int(forwardLookup[r]) && int(forwardLookup[r]) < 128 && mapdom(reverseLookup, int(forwardLookup[r])) && int(reverseLookup[int(forwardLookup[r])]) == r
+//@   ensures [C05,C08 escape] mapdom(forwardEscape, r) ==> 0 <= int(forwardEscape[r]) && int(forwardEscape[r]) < 128 && mapdom(reverseEscape, int(forwardEscape[r])) && int(reverseEscape[int(forwardEscape[r])]) == r
+
+//@ lemma gsm_text_roundtrip(S Bytes, i int)
+//@   props C05,C08
+//@   requires 0 <= i && i <= len(S) && utf8from(S, i) && gsmokfrom(S, i)
+//@   use gsm_tables_inverse(runeat(S, i))
+//@   use gsmtext_default(int(forwardLookup[runeat(S, i)]), gsmseq(S, i + runelen(S, i)))
+//@   use gsmtext_escape(int(forwardEscape[runeat(S, i)]), gsmseq(S, i + runelen(S, i)))
+//@   induct S, i + runelen(S, i)
+//@   decreases len(S) - i
+//@   ensures [C05,C08 inverse] gsmtext(gsmseq(S, i)) == drop(S, i)
+
+// The packed codec end to end (datacoding.GSM7Packed: Encode = Pack . Encode, Decode = Decode . Unpack): decoding the
+// encoding of valid UTF-8 text in the repertoire returns the text. The second hypothesis is the bridge between the
+// bit-vector level and this level: Unpack(Pack(X)) == X, which unpack_inverts_pack (septet by septet) and Unpack's count
+// clause give for every X outside the end-of-message carve-out of the property (a final CR, or a final '@' after a
+// septet below 0x40, when the septet count is a multiple of 8); that last composition step is not mechanised.
+//@ lemma packed_codec_roundtrip(c Bytes)
+//@   props C05
+//@   requires utf8from(c, 0) && gsmokfrom(c, 0)
+//@   requires unpackimg(packimg(gsmseq(c, 0))) == gsmseq(c, 0)
+//@   use gsm_text_roundtrip(c, 0)
+//@   ensures [C05 inverse] gsmtext(unpackimg(packimg(gsmseq(c, 0)))) == c
 
 //@ func ValidateGSM7Buffer
 //@   props C08,C03
@@ -106,6 +179,12 @@ package gsm7encoding
 
 //@ func Pack
 //@   abstract dst == packimg(content(septets))
+
+// unpackimg(p): the septets Unpack returns for the octets p (bit-level meaning: the contract of Unpack above).
+//@ uninterpreted unpackimg(Bytes) Bytes
+
+//@ func Unpack
+//@   abstract septets == unpackimg(content(src))
 
 // gsmseptets(s) / gsmencodable(s): the septets Encode returns for s and whether it accepts s (Encode is a function of its argument).
 //@ uninterpreted gsmseptets(Bytes) Bytes
